@@ -263,6 +263,9 @@ prop("C06", [
     {"name": "c06_writes", "sources": ["c06_writes.cc"], "flavour": "asan",
      "args": {"quick": ["--mode=c06", "--D=2", "--timeout-ms=120000", "--deadline-s=170"],
               "thorough": ["--mode=c06", "--D=3", "--thorough=1", "--timeout-ms=1200000", "--deadline-s=2400"]}},
+    {"name": "c06_deep", "sources": ["c06_writes.cc"], "flavour": "asan",
+     "args": {"quick": ["--mode=c06", "--deep=1", "--D=4", "--timeout-ms=120000", "--deadline-s=170"],
+              "thorough": ["--mode=c06", "--deep=1", "--D=5", "--timeout-ms=1200000", "--deadline-s=1200"]}},
 ],
     rule="one case = (write list, issue schedule): 1..3 writes per connection, each a memory buffer {1,2,5,4097 bytes} "
          "or a file {1,5,70000 bytes}, each issued after 0..2 event-loop steps; for every such case ALL plans of "
@@ -271,7 +274,9 @@ prop("C06", [
          "re-arm), with and without client input arriving while blocked; executed on the real Tcp::Transport + "
          "reactor stepped single-threaded over a socketpair; oracle: peer stream = concatenation in issue order, each "
          "promise settled exactly once, fulfilled with the full byte count and not before its last byte was accepted, "
-         "no busy-wait; executions = (case x plan) runs; non-trivial = runs in which a non-default answer was hit",
+         "no busy-wait; a second part goes deeper on single writes: all plans with <= 4 (thorough 5) deviations over the "
+         "reduced answer alphabet {accept 1, accept half, would-block} (a write interrupted several times); "
+         "executions = (case x plan) runs; non-trivial = runs in which a non-default answer was hit",
     assumptions=COMMON_ASSUME + ["writes are issued from the event-loop thread in this harness; the cross-thread hand-over "
                                  "through the PollableQueue is covered by C13 and, end to end, by C09"],
     bounds={"quick": "D=2 (1 057 plans) x 585 (write list, schedule) cases", "thorough": "D=3 x extended triples (until the deadline)"})
@@ -351,3 +356,22 @@ prop("C09", [
                                  "batch are left to the TSan pass, which sees no happens-before from the gate)"],
     bounds={"quick": "w<=3, c<=3, r<=2, D<=1; shutdown at every prefix of the default schedules",
             "thorough": "D<=2, shutdown at every prefix of the 1-deviation schedules"})
+
+prop("C15", [
+    {"name": "c15_client", "sources": ["c15_client.cc"], "c_sources": ["common/netgate.c"], "flavour": "asan",
+     "args": {"quick": ["--D=1", "--timeout-ms=170000", "--deadline-s=170"],
+              "thorough": ["--thorough=1", "--D=2", "--timeout-ms=2400000", "--deadline-s=2400"]}},
+],
+    rule="one case = a scenario (client threads 1..2, maxConnectionsPerHost 1..2, batch of n<=3 (thorough 4) tagged "
+         "requests, per-request server behaviour in {whole, two pieces, chunked, whole-then-close} - all vectors for "
+         "n<=2, a third of them for larger n - plus time-out scenarios: first request with a 1 s time-out never "
+         "answered / answered late): DFS with <= D deviations over the orders of {client reactor_k step, issue next "
+         "request, server accept, server read, server answer piece, tick(+500 ms)} with a real "
+         "Experimental::Client whose reactor threads are gated at epoll_wait and a scripted loopback server; oracle "
+         "per execution: every promise settled at most once, fulfilled only with the response carrying its own tag, "
+         "answered requests fulfilled by quiescence, unanswered request with an expired time-out rejected, peak of "
+         "simultaneously open server-side connections <= limit; states = nodes of the schedule tree",
+    assumptions=COMMON_ASSUME + ["requests are issued from the harness thread while the reactor threads are parked, so "
+                                 "an issue is atomic with respect to reactor steps (the issue/completion race inside "
+                                 "Client::doRequest is outside this granularity)"],
+    bounds={"quick": "n<=3, D<=1 (late-answer scenarios D<=2)", "thorough": "n<=4, D<=2 (until the deadline)"})
